@@ -351,13 +351,16 @@ end
 tuples, surrounding white space and a trailing `#` comment.  Returns the numbers and whether the value is a tuple. -/
 def parseTuple (s : Str) : PR (List Rat × Bool) :=
   let noComment := s.takeWhile (· != '#')
-  match pyValue (2 * noComment.length + 4) noComment with
+  -- the top level may be a tuple without parentheses (`428.0,1.5`): read it as the items of one parenthesised group
+  match pyItems (2 * noComment.length + 6) (noComment ++ [')']) [] false with
   | .error e => .error e
-  | .ok (v, rest) =>
-    if !(skipWs rest).isEmpty then .error .distTuple else
+  | .ok (items, comma, rest) =>
+    if !rest.isEmpty then .error .distTuple else
+    let v : PR PyVal := if comma then .ok (.tup items) else match items with | [x] => .ok x | _ => .error .distTuple
     match v with
-    | .num q => .ok ([q], false)
-    | .tup l =>
+    | .error e => .error e
+    | .ok (.num q) => .ok ([q], false)
+    | .ok (.tup l) =>
       match l.mapM (m := PR) (fun x => match x with | .num q => .ok q | .tup _ => .error .distTuple) with
       | .error e => .error e
       | .ok qs => .ok (qs, true)
